@@ -670,7 +670,7 @@ ASSUMPTIONS = [
 ]
 TRUSTED = ["stdlib json, pickle, pathlib; PyYAML"]
 EXHAUSTIVE = {"quick": False, "thorough": False}
-THOROUGH_ROUNDS = 8   # thorough tier: this many generator passes with derived PRNG states (vcheck)
+THOROUGH_ROUNDS = 5   # thorough tier: this many generator passes with derived PRNG states (vcheck)
 ROUTES = ["dict", "json", "yaml", "f.json", "f.yaml", "f.yml", "f.pkl"]
 
 
